@@ -41,26 +41,33 @@ def _pkg_env(pkg_key):
     return envs.ENVS[pkg_key]()
 
 
-def run_concrete(job, model):
+def run_concrete(job, model, stop_on_failure=True):
     """Run the harness on the real code with the model's values.
     Returns (status, failures): status in ok|failed|mismatch|error."""
     fn = _resolve(job.harness)
     from . import envs
     pkg = envs.real_package(job.pkg_key, job.block)
     Wc = world.ConcreteWorld(model, pkg)
+    Wc.stop_on_failure = stop_on_failure
     old = world.W
     world.W = Wc
     import warnings
     warnings.simplefilter('ignore')
     try:
         fn(Wc, job.cfg)
+    except world.ReplayDone:
+        pass
     except world.ReplayMismatch as e:
-        return 'mismatch', [('replay-mismatch', str(e))]
+        if not Wc.failures:
+            return 'mismatch', [('replay-mismatch', str(e))]
     except (E.PathAbort, E.BeyondBound, E.NotModelled) as e:
-        return 'mismatch', [('replay-left-path', repr(e))]
+        if not Wc.failures:
+            return 'mismatch', [('replay-left-path', repr(e))]
     except Exception as e:
-        tb = traceback.format_exc().splitlines()[-6:]
-        return 'error', [('replay-exception', repr(e) + ' | ' + ' | '.join(tb))]
+        if not Wc.failures:
+            tb = traceback.format_exc().splitlines()[-6:]
+            return 'error', [('replay-exception',
+                              repr(e) + ' | ' + ' | '.join(tb))]
     finally:
         world.W = old
         envs.restore_real()
